@@ -437,6 +437,33 @@ class RepoInterp:
                 return v_cv
         return None
 
+    def _new_dataclass(self, ci: Any, call: ast.Call, args: List[V], kwargs: Dict[str, V], st: State) -> Optional[V]:
+        """an instance of a @dataclass of the package that has no __init__ of its own: the generated one binds the arguments to
+        the annotated fields in class-body order, defaults from the class body; then __post_init__ if there is one"""
+        fields_dc = self._dataclass_fields(ci)
+        if fields_dc is None:
+            return None
+        attrs_dc: Dict[str, Any] = {"__class__": K(ci.fq)}
+        names_dc = [n_ for n_, _ in fields_dc]
+        if len(args) > len(names_dc) or any(k_ not in names_dc for k_ in kwargs):
+            st.pending = st.pending or "TypeError"
+            return U("dataclass arguments")
+        for n_, a_ in zip(names_dc, args):
+            attrs_dc[n_] = a_
+        for k_, v_ in kwargs.items():
+            attrs_dc[k_] = v_
+        for n_, dflt in fields_dc:
+            if n_ not in attrs_dc:
+                if dflt is None:
+                    st.pending = st.pending or "TypeError"
+                    return U("missing dataclass argument " + n_)
+                attrs_dc[n_] = self.interp.eval(dflt, st)
+        obj_dc = st.alloc("obj", attrs_dc)
+        post = self.repo.method(ci, "__post_init__")
+        if post is not None:
+            self.inline_call(post, call, obj_dc, [], {}, st)
+        return obj_dc
+
     def _dataclass_fields(self, ci: Any) -> Optional[List[Tuple[str, Optional[ast.AST]]]]:
         """[(field, default expression | None)] of a class decorated with @dataclass / @dataclasses.dataclass(...), in class-body
         order (ClassVar annotations are not fields); None if the class is not a dataclass"""
@@ -972,29 +999,8 @@ class RepoInterp:
         if (self.construct_instances or priv_cls is not None) and isinstance(call.func, ast.Name) and not isinstance(fval, (R, Ref)):
             ci_new = self.repo.resolve_class(self.cur_fi.module, call.func.id)
             if ci_new is not None and self.repo.method(ci_new, "__init__") is None:
-                fields_dc = self._dataclass_fields(ci_new)
-                if fields_dc is not None:
-                    # @dataclass without an __init__ of its own: the generated one binds the arguments to the annotated
-                    # fields in class-body order, defaults from the class body; then __post_init__ if there is one
-                    attrs_dc: Dict[str, Any] = {"__class__": K(ci_new.fq)}
-                    names_dc = [n_ for n_, _ in fields_dc]
-                    if len(args) > len(names_dc) or any(k_ not in names_dc for k_ in kwargs):
-                        st.pending = st.pending or "TypeError"
-                        return U("dataclass arguments")
-                    for n_, a_ in zip(names_dc, args):
-                        attrs_dc[n_] = a_
-                    for k_, v_ in kwargs.items():
-                        attrs_dc[k_] = v_
-                    for n_, dflt in fields_dc:
-                        if n_ not in attrs_dc:
-                            if dflt is None:
-                                st.pending = st.pending or "TypeError"
-                                return U("missing dataclass argument " + n_)
-                            attrs_dc[n_] = self.interp.eval(dflt, st)
-                    obj_dc = st.alloc("obj", attrs_dc)
-                    post = self.repo.method(ci_new, "__post_init__")
-                    if post is not None:
-                        self.inline_call(post, call, obj_dc, [], {}, st)
+                obj_dc = self._new_dataclass(ci_new, call, args, kwargs, st)
+                if obj_dc is not None:
                     return obj_dc
                 return st.alloc("obj", {"__class__": K(ci_new.fq)})  # no __init__ in the package: a bare instance
         if self.construct_instances and isinstance(call.func, ast.Name) and call.func.id == "cls" and isinstance(st.env.get("cls"), S) \
@@ -1004,8 +1010,12 @@ class RepoInterp:
             mn_c, _, cn_c = cfq_c.rpartition(".")
             ci_c = self.repo.cls(mn_c, cn_c, required=False)
             if ci_c is not None:
-                obj_c = st.alloc("obj", {"__class__": K(ci_c.fq)})
                 init_c = self.repo.method(ci_c, "__init__")
+                if init_c is None:
+                    obj_dc2 = self._new_dataclass(ci_c, call, args, kwargs, st)
+                    if obj_dc2 is not None:
+                        return obj_dc2
+                obj_c = st.alloc("obj", {"__class__": K(ci_c.fq)})
                 if init_c is not None:
                     self.inline_call(init_c, call, obj_c, args, kwargs, st)
                 return obj_c
@@ -1657,8 +1667,13 @@ def platform_call(fname: Optional[str], fval: Optional[V], call: ast.Call, args:
             return K(getattr(_ud, fname.split(".")[1])(args[0].v, args[1].v))
         except Exception:
             return None
-    if fname in ("str.casefold", "str.lower", "str.upper", "str.strip", "str.title", "str.capitalize", "str.swapcase") and len(args) == 1 and not kwargs and isinstance(args[0], K) and isinstance(args[0].v, str):
-        return K(getattr(str, fname.split(".")[1])(args[0].v))
+    if fname is not None and fname.startswith("str.") and fname.split(".", 1)[1] in _STR_FOLD and args and not kwargs and all(isinstance(a, K) for a in args) and isinstance(args[0].v, str):
+        # the unbound form `str.isalnum(word)` (what `filter(str.isalnum, words)` calls): the method of the constant string
+        try:
+            r_s = getattr(str, fname.split(".", 1)[1])(*[a.v for a in args])
+        except Exception:
+            return None
+        return K(tuple(r_s) if isinstance(r_s, list) else r_s)
     if fname in ("re.sub", "re.escape", "re.fullmatch", "re.match", "re.search", "re.split", "re.findall") and args and not kwargs \
             and all(isinstance(a, K) and isinstance(a.v, (str, int)) for a in args):
         import re as _re  # pure string functions of the platform library, on constant arguments
